@@ -1,7 +1,7 @@
 (* C03 — TT-SVD (svd, svd_matrix, matrix_skeleton, full_matrix).  Only statements, each closed by [exact]. *)
 From Coq Require Import List Arith Lia PeanoNat ZArith Reals.
 From TV Require Import Num.Ops Lin.Tab Lin.BigSum Lin.Mat TT.Chain Model.ActOne Model.Svd Model.SvdMatrix
-  Proofs.SvdP Proofs.SvdP2 Proofs.SvdP3 Proofs.SvdP4 Proofs.SvdP5 Proofs.SvdP6 Proofs.SvdP7 Proofs.SvdP8 Proofs.SvdP9.
+  Proofs.SvdP Proofs.SvdP2 Proofs.SvdP3 Proofs.SvdP4 Proofs.SvdP5 Proofs.SvdP6 Proofs.SvdP7 Proofs.SvdP8 Proofs.SvdP9 Proofs.SvdP10.
 Import ListNotations.
 
 (* ---- shape and ranks ----
@@ -137,6 +137,24 @@ Proof.
   cbn [Nat.mul Nat.add] in E. rewrite E by lia. rewrite mget_mk by nia. reflexivity.
 Qed.
 
+(* ... and for EVERY bond the spectrum seen at step k is a spectrum of the k-th unfolding of the INPUT: under the
+   same hypotheses plus the SVD contract on the calls of the run, the unfolding data.reshape(n_1..n_k, -1) has a
+   contract-meeting factorisation U' diag(s_k) V_k with the recorded s_k, V_k (the factorised matrix is P^T X_k with
+   P the orthonormal prefix; nothing was lost before).  So rho_k = number of positive singular values of the input's
+   k-th unfolding in that SVD.  (Independence of that number from the chosen SVD = uniqueness of singular values,
+   classical, not proved here: hence "partial" in the name.) *)
+Theorem C03_svd_exact_ranks_unfoldings_partial : forall (data : list R) svdo (e : R) rcap ns rhos,
+  Forall (fun n => 0 < n) ns ->
+  calls_ok OR svdo e rcap 0 (mkmat 1 (prodn ns) (fun _ j => nth j data 0%R)) 1 ns ->
+  exact_run svdo e rcap rhos 0 (mkmat 1 (prodn ns) (fun _ j => nth j data 0%R)) 1 ns ->
+  linked data svdo e rcap 1 0 (mkmat 1 (prodn ns) (fun _ j => nth j data 0%R)) 1 ns.
+Proof. exact exact_ranks_link. Qed.
+(* one step of it, in isolation: prefix P with orthonormal columns and P Zm = input  ==>  SVD of the input unfolding *)
+Theorem C03_link_step : forall (data : list R) Npre P Zm q n N' U s V, 0 < q -> 0 < n -> mr Zm = q -> mc Zm = n * N' ->
+  inv data Npre P Zm q (n * N') -> svd_ok OR (step_mat OR Zm q n) U s V ->
+  svd_ok OR (unfold_mat data (Npre * n) N') (mkmat (Npre * n) (length s) (lift P (mget OR U) q n)) s V.
+Proof. exact link_svd. Qed.
+
 (* ---- rel = True: the same two statements with e replaced by e * s_0 (s_0 > 0) ---- *)
 Theorem C03_rel_tail : forall (s : list R) (e : R) rcap, 1 <= length s -> (0 < nth 0 s 0)%R ->
   cap_free_at (rel_weights s) (e * e)%R rcap ->
@@ -220,6 +238,9 @@ Example C03_svd_error_hyps_example :
   calls_ok OR ex_svdo (1/2)%R 10 0 (mkmat 1 (prodn [2; 2]%nat) (fun _ j => nth j ex_data 0%R)) 1 [2; 2]%nat /\
   cap_free ex_svdo (1/2)%R 10 0 (mkmat 1 (prodn [2; 2]%nat) (fun _ j => nth j ex_data 0%R)) 1 [2; 2]%nat.
 Proof. exact svd_error_hyps_example. Qed.
+Example C03_exact_run_example :
+  exact_run ex_svdo (1/2)%R 10 [2] 0 (mkmat 1 (prodn [2; 2]%nat) (fun _ j => nth j ex_data 0%R)) 1 [2; 2]%nat.
+Proof. exact exact_run_example. Qed.
 (* the index maps on concrete numbers: q = 2, entry (i, j) = (2, 1): t = (0 + 2*1, 1 + 2*0) = (2, 1), position 2*4+1 *)
 Example C03_interleave_example :
   modes_of true 2 2 1 = [2; 1] /\ cpos (repeat 4 2) [2; 1] 0 = 9 /\ digits4 2 9 = [2; 1] /\
